@@ -176,7 +176,9 @@ PAYLOADS = ['a}b', 'a{b', 'a%b', 'a#b', 'a_b', 'a^b', 'a&b', 'a\\b', 'a\\', '\\e
             'a%20}b', '%7E\\input{f}', 'a%2Fb}{c', '%41$1^2', '{inner}', '{target}', '{0}', '%s', '{tag}', 'a%', '%%', '%7B', 'x#y', 'x%23y#z']
 TEMPLATES = ['{p}', '# {p}', '**{p}**', '*{p}*', '~~{p}~~', '[a]({p})', '[{p}](u)', '![a]({p})', '![{p}](x)', '<http://x/{p}>', '```{p}\ncode\n```', '`{p}`',
              '> {p}', '- {p}', '| {p} |\n|---|\n| {p} |', '    {p}', '```\n{p}\n```', '[a][r]\n\n[r]: {p}', '{p}\n===', '1. {p}', '\\{p}', 'a {p}\\\nb',
-             '[*c* {x}](/u \'{p}\')', '[**s** 50%]({p})', '[`co` & x][r]\n\n[r]: {p} "t"']
+             '[*c* {x}](/u \'{p}\')', '[**s** 50%]({p})', '[`co` & x][r]\n\n[r]: {p} "t"',
+             # constructs with an EMPTY slot next to the payload (a renderer may fill the gap from the other slot)
+             '[]({p})', '![]({p})', '[][r]\n\n[r]: {p}', '| []({p}) |\n|---|\n| x |', '[](u "{p}")', '```{p}\n```', '# []({p})']
 
 
 def _worker(texts):
